@@ -56,9 +56,12 @@ fn js(s: &str) -> String {
     esc(s, &mut o);
     o
 }
-fn trunc(mut s: String) -> String {
-    if s.len() > 400 {
-        let mut n = 400;
+fn trunc(s: String) -> String {
+    trunc_n(s, 400)
+}
+fn trunc_n(mut s: String, lim: usize) -> String {
+    if s.len() > lim {
+        let mut n = lim;
         while !s.is_char_boundary(n) {
             n -= 1;
         }
@@ -242,7 +245,16 @@ impl<'a, 'tcx> Cx<'a, 'tcx> {
         let mut tys: Vec<String> = Vec::new();
         for a in args.iter() {
             if let Some(t) = a.as_type() {
-                tys.push(ty_s(t));
+                // reveal `impl Trait` return types of other functions where that is possible
+                let shown = if t.has_opaque_types() && !t.has_param() && !t.has_infer() {
+                    match tcx.try_normalize_erasing_regions(self.env, ty::Unnormalized::new_wip(t)) {
+                        Ok(n) => n,
+                        Err(_) => t,
+                    }
+                } else {
+                    t
+                };
+                tys.push(trunc_n(with_no_trimmed_paths!(shown.to_string()), 3000));
             }
         }
         if !tys.is_empty() {
@@ -882,7 +894,7 @@ fn dump_items<'tcx>(tcx: TyCtxt<'tcx>, out: &mut String) {
             krate: rustc_hir::def_id::CrateNum::from_u32(*k),
             index: rustc_hir::def_id::DefIndex::from_u32(*i),
         };
-        if matches!(tcx.def_kind(did), DefKind::Const { .. } | DefKind::AssocConst { .. }) {
+        if matches!(tcx.def_kind(did), DefKind::Const { .. } | DefKind::AssocConst { .. } | DefKind::AnonConst | DefKind::InlineConst) {
             wanted.insert((did.krate.as_u32(), did.index.as_u32()));
         }
     }
